@@ -101,3 +101,16 @@ prop(
              "NOT COVERED: thread interleavings, several payloads failing at nearly the same time (first-wins is proved per future; which one wins is schedule), termination of the close loop"],
     design_ref="5/C01",
 )
+
+prop(
+    "C10",
+    ["contracts.runtime"],
+    "proof",
+    "contract-based deductive verification of the execute chain: pass-through (result/exception by identity, exactly-once call with exactly the arguments) and an EMPTY write frame, per link",
+    "execute -> MetaRunner.run_payload -> each runner's run_payload: for every outcome of the payload (any object incl. None and falsy values, any exception class) the caller gets that very object / exception, the payload is called exactly once with exactly the arguments in the requested flavour, and no field of the runtime is written (so it cannot count as a background failure); " + CONC_NOTE,
+    "trusted: pyvc's Python semantics; assumed contracts of run_coroutine_threadsafe(...).result(), trio.from_thread.run, functools.partial; delivery across threads is the frameworks'",
+    trusted=["assumed: run_coroutine_threadsafe(coro, loop).result() and trio.from_thread.run(f, trio_token=t) yield the callee's outcome by identity, in the loop's / token's thread",
+             "assumed: functools.partial(f,*a,**k)(*b,**l) == f(*a,*b,**k,**l)",
+             "representative arity: argument lists are the empty one and (2 positional + 1 keyword); the code forwards them untouched"],
+    design_ref="5/C10",
+)
